@@ -163,6 +163,7 @@ def run(chk):
         scens.append(s)
         metas.append((hops, brk, pos, cs, err, final, fpos, ev, docs))
     results = clientrun.run_scenarios(chk, scens)
+    clientrun.warm_correspondence(chk, scens)
     for s, (hops, brk, pos, cs, err, final, fpos, ev, docs), (impl, model, mcase) in zip(scens, metas, results):
         chk.seen(mcase, hops >= 1)
         chk.count("%s" % brk)
